@@ -552,10 +552,17 @@ def _structure_harmonics(eng, ctx, ph, sh, mp, facts, coeffs):
             # `for k in itertools.count(1)`: entered unconditionally, k steps by 1; it must be left when the probe finds nothing
             S = eg.term[3][2] if len(eg.term[3]) == 3 else None
             brk_ = [st_ for k_, st_ in lw.get("ends", []) if k_ == "break"]
-            okx = S is not None and any(any(c[0] == "cmp" and c[2] == eg.term and c[3] == S and ((c[1] == "is" and pol) or (c[1] == "is not" and not pol)) for c, pol in st_.guards) for st_ in brk_)
+            apps2 = [e for e in sh.effects if e.kind == "call" and e.term[2][0] == "attr" and e.term[2][2] == "append" and e.loops == eg.loops]
+            if S is None:
+                # two-argument getattr: the missing attribute is the AttributeError path, which must break; the append is on the other path
+                on_exc = lambda gs: any((c[0] == "exc-path" or (c[0] == "caught" and c[3] in ("AttributeError", "Exception", "BaseException", ""))) and pol for c, pol in gs)  # noqa: E731
+                ctx.check(any(on_exc(st_.guards) for st_ in brk_), "C18.D9", ph.qualname, "probe loop ends at the first missing attribute", expected="a break on the AttributeError path of getattr(msg, NAME)", found=f"{len(brk_)} break(s)", **eng.loc(ph, lw.get("node", ph.node)))
+                ctx.check(cstart == 1, "C18.D9", ph.qualname, "first coefficient index", expected="1", found=str(cstart), **eng.loc(ph, eg.node))
+                ctx.check(len(apps2) == 1 and not on_exc(apps2[0].guards), "C18.D9", ph.qualname, "value appended when present", expected="one append on the path where getattr succeeded", found=guard_text(apps2[0].guards)[-80:] if apps2 else "no append", **eng.loc(ph, eg.node))
+                continue
+            okx = any(any(c[0] == "cmp" and c[2] == eg.term and c[3] == S and ((c[1] == "is" and pol) or (c[1] == "is not" and not pol)) for c, pol in st_.guards) for st_ in brk_)
             ctx.check(okx, "C18.D9", ph.qualname, "probe loop ends at the first missing attribute", expected="break when getattr(msg, NAME, SENTINEL) is SENTINEL", found=f"{len(brk_)} break(s)", **eng.loc(ph, lw.get("node", ph.node)))
             ctx.check(cstart == 1, "C18.D9", ph.qualname, "first coefficient index", expected="1", found=str(cstart), **eng.loc(ph, eg.node))
-            apps2 = [e for e in sh.effects if e.kind == "call" and e.term[2][0] == "attr" and e.term[2][2] == "append" and e.loops == eg.loops]
             ctx.check(len(apps2) == 1 and any(c[0] == "cmp" and c[2] == eg.term and c[3] == S and ((c[1] == "is not" and pol) or (c[1] == "is" and not pol)) for c, pol in apps2[0].guards) if apps2 else False, "C18.D9", ph.qualname,
                       "value appended when present", expected="append under `value is not SENTINEL`", found=guard_text(apps2[0].guards)[-80:] if apps2 else "no append", **eng.loc(ph, eg.node))
             continue
